@@ -4,6 +4,7 @@ import (
 	"fmt"
 	"go/constant"
 	"go/token"
+	"sort"
 	"strings"
 
 	"golang.org/x/tools/go/ssa"
@@ -457,6 +458,51 @@ func runC09(r *Run) {
 	})
 
 	r.rule("R5", "pooled parameter maps: cleared before reuse, not used after Put (E4a/E1)", func() { pooledParamMapRule(r) })
+
+	r.rule("R11", "a parameter map goes back to the pool once: the maps of the parsed ranges are handed back by one loop over the ranges (each range when the selection is done with it) — a second sweep over the list (`release all` at the match) hands back the maps of ranges that were already rejected a second time, two later ranges then share one map and the second overwrites the first one's parameters (E1 pairing)", func() {
+		f := r.Fn("", "getOffer")
+		type loopKey struct {
+			fn  *ssa.Function
+			hdr *ssa.BasicBlock
+		}
+		loops := map[loopKey]string{}
+		n := 0
+		for _, c := range callsIn(f, false) {
+			if c.Name != "(*sync.Pool).Put" || len(c.Common.Args) != 2 {
+				continue
+			}
+			var elem *ssa.IndexAddr
+			dependsOn(c.Common.Args[1], func(v ssa.Value) bool {
+				ia, ok := v.(*ssa.IndexAddr)
+				if ok && strings.HasSuffix(ia.X.Type().String(), ".acceptedType") {
+					elem = ia
+					return true
+				}
+				return false
+			})
+			if elem == nil {
+				continue
+			}
+			n++
+			hdr := elem.Block()
+			if ph, ok := elem.Index.(*ssa.Phi); ok {
+				hdr = ph.Block()
+			} else if bo, ok := elem.Index.(*ssa.BinOp); ok {
+				if ph, ok := bo.X.(*ssa.Phi); ok {
+					hdr = ph.Block()
+				}
+			}
+			loops[loopKey{c.Instr.Parent(), hdr}] = r.pos(c.Instr)
+		}
+		r.atLeast("Put sites for the maps of parsed ranges", n, 2)
+		var where []string
+		for _, p := range loops {
+			where = append(where, p)
+		}
+		sort.Strings(where)
+		r.check(len(loops) == 1, "getOffer:range-maps-handed-back-by-one-loop", r.fpos(f), "every Put of a range's map belongs to the one loop that walks the ranges",
+			"the maps of the parsed ranges are handed back in "+fmt.Sprint(len(loops))+" different loops over the list ("+strings.Join(where, ", ")+"): a range rejected earlier has its map put back twice, the pool hands the same map to two ranges of a later header and the second overwrites the first one's parameters — a range selects an offer that lacks its parameters")
+	})
 
 	r.rule("R10", "a type wildcard compares whole types: where acceptsOfferType tests one media type for being a prefix of the other, the prefix is cut behind the `/` (an index of '/' plus at least one) — a prefix cut in front of the separator makes `t/*` accept text/html and the offer text/* answer for textual/html (E5, offsets)", func() {
 		f := r.Fn("", "acceptsOfferType")
